@@ -175,6 +175,11 @@ pub(crate) fn decompress(x: &[u8], n: usize) -> Option<Vec<i16>> {
         // read low bits
         let mut low_bits = 0i16;
         let (index_div_8, index_mod_8) = index.div_mod_floor(&8);
+        if index_div_8 + 1 >= x.len() {
+            // the low bits reach into the last byte: no room is left for
+            // this coefficient's terminator and the coefficients after it
+            return None;
+        }
         low_bits |= (x[index_div_8] as i16) << index_mod_8;
         low_bits |= (x[index_div_8 + 1] as i16) >> (8 - index_mod_8);
         low_bits = (low_bits & 255) >> 1;
